@@ -351,6 +351,28 @@ impl Gen {
                     faults.drop.sort();
                     faults.drop.dedup();
                 }
+                // concurrent activity on the server while it answers (only when there is some)
+                let mut kinds: Vec<&str> = vec![];
+                if !w.visible_undelivered(server).is_empty() {
+                    kinds.push("deliver");
+                    kinds.push("deliver");
+                }
+                if !w.node(server).apply_backlog.is_empty() {
+                    kinds.push("apply");
+                }
+                if !w.node(server).clear_backlog.is_empty() {
+                    kinds.push("clear");
+                }
+                if !kinds.is_empty() && f.chance(0.35) {
+                    faults.mid = Some(super::Mid {
+                        at: f.below(5) as usize,
+                        what: f.pick(&kinds).to_string(),
+                    });
+                    // a requester that asks across the server's gaps makes the overlap matter
+                    if f.chance(0.5) {
+                        faults.scripted = true;
+                    }
+                }
                 Event::Sync {
                     client,
                     server,
